@@ -247,10 +247,25 @@ def rootAttrs (env : NsEnv) (cfg : Cfg) (s : HState) : Except Err HState :=
   | .error e => .error e
   | .ok s1 => rootAttr1 env cfg.noNsSchemaLocation env.xsiNoNsSchemaLocation s1
 
+def xmlnsNsLit : Str :=
+  ['h', 't', 't', 'p', ':', '/', '/', 'w', 'w', 'w', '.', 'w', '3', '.', 'o', 'r', 'g', '/', '2', '0', '0', '0', '/',
+   'x', 'm', 'l', 'n', 's', '/']
+
+/-- one entry of `EventHandler.validate_prefixes`: `true` = accepted -/
+def prefixEntryOK (env : NsEnv) (e : Pfx × Str) : Bool :=
+  !((match e.1 with | some p => !p.isEmpty && !env.isNcnamePy p | none => false)
+    || e.1 == some ['x', 'm', 'l', 'n', 's']
+    || ((e.1 == some env.xmlPrefix) != (e.2 == env.xmlUri))
+    || e.2 == xmlnsNsLit)
+
+/-- `EventHandler.validate_prefixes(ns_map)` passes (otherwise `XmlWriterError` in `__init__`) -/
+def prefixesValid (env : NsEnv) (m : NsMap) : Bool := m.all (prefixEntryOK env)
+
 /-- `EventHandler.write(events)` after `XmlSerializer.write` cleaned the user
 map: the SAX calls the content handler receives and the exception raised, if any -/
 def handlerRun (env : NsEnv) (cfg : Cfg) (native : Bool) (userMap : List (Pfx × Str))
     (es : List Ev) : List Call × Option Err :=
+  if !prefixesValid env (serializerNsMap userMap) then ([], some .xmlWriterError) else
   match rootAttrs env cfg (HState.init (serializerNsMap userMap)) with
   | .error e => ([], some e)
   | .ok s0 => hLoop env cfg native s0 es
